@@ -31,10 +31,12 @@ from lib import *
 # (cfg, id salt).  Salt "" orders handler a before b, salts "c" / "e" order b before a.
 RUNS = {
     "quick": [("MC_C08l_quick.cfg", ""), ("MC_C08l_quick_perm.cfg", "c"), ("MC_C08l_quick_retry.cfg", "e")],
-    "thorough": [("MC_C08l_thorough.cfg", "e"), ("MC_C08l_thorough_perm.cfg", "d"), ("MC_C08l_thorough_mid.cfg", "h"),
-                 ("MC_C08l_quick.cfg", "c"), ("MC_C08l_quick.cfg", "g"),
-                 ("MC_C08l_quick_perm.cfg", "c"), ("MC_C08l_quick_retry.cfg", "")],
+    "thorough": [("MC_C08l_thorough.cfg", "e"), ("MC_C08l_thorough.cfg", "g"), ("MC_C08l_thorough_perm.cfg", "d"),
+                 ("MC_C08l_thorough_mid.cfg", "h"), ("MC_C08l_quick.cfg", ""),
+                 ("MC_C08l_quick_perm.cfg", "c"), ("MC_C08l_quick_retry.cfg", "f")],
 }
+if os.environ.get("VERIF_C08L_DEEP"):      # 5 intents: 362 983 transitions / 598k commits, ~3 GB of decoded cases
+    RUNS["thorough"].append(("MC_C08l_deep.cfg", "b"))
 PROCS = 3
 P = "legacy_inbox:"
 
